@@ -2,6 +2,8 @@
 // short tasks, workers that expire (expiry timeout of a few milliseconds) and are reaped by update().
 // `threads` = maxThreadCount.  The setters are called only while the pool has no worker (intended-use contract).
 //   mix 0: balanced      mix 1: start-heavy, no stop      mix 2: stop/start cycles      mix 3: expiry-heavy (sleeps)
+// OUT-OF-CONTRACT probe (never part of the check, see harness/drf/mutants.py probes):
+//   mix 9: as 0, but setExpiryTimeout / setMaxThreadCount are also called while workers are alive
 #include "drf_common.h"
 
 #include <tulz/threading/ThreadPool.h>
@@ -33,7 +35,10 @@ int main(int argc, char **argv) {
             unsigned r = rng.below(100);
             unsigned startP = a.mix == 1 ? 70 : a.mix == 2 ? 35 : 45;
             unsigned stopP = a.mix == 1 ? 0 : a.mix == 2 ? 12 : 3;
-            if (r < startP) {
+            if (a.mix == 9 && rng.below(10) == 0) {
+                pool.setExpiryTimeout(1 + (int) rng.below(4));
+                pool.setMaxThreadCount(1 + (int) rng.below((unsigned) a.threads));
+            } else if (r < startP) {
                 if (rng.below(2)) pool.start(task, 50 + (int) rng.below(200));
                 else pool.start(new Job());
             } else if (r < startP + stopP) {
